@@ -166,7 +166,7 @@ def model_check(ctx):
     maxlen = 5 if ctx.tier == "quick" else 6
     import os
     for fam in (25, 27):
-        cfg = os.path.join(tlc.SPEC_DIR, "_gen_EscMC_%d.cfg" % fam)
+        cfg = os.path.join(tlc.SPEC_DIR, "_gen_EscMC_%d_%d.cfg" % (fam, os.getpid()))
         with open(cfg, "w") as f:
             f.write("CONSTANTS\n MaxLen = %d\n Fam = %d\n UseOld = FALSE\nSPECIFICATION Spec\nCHECK_DEADLOCK FALSE\n"
                     "INVARIANT PropertyHolds\nINVARIANT Idempotent\nINVARIANT FixpointIsStable\n" % (maxlen if fam == 25 else maxlen - 0, fam))
